@@ -202,6 +202,14 @@ Definition unequal_nodes (g : its) : list N :=
 (** remove_normal_edges(graph, "standard_order"): copy without the edges whose standard_order == 0 *)
 Definition remove_normal (g : its) : its := LG (gnodes g) (filter (fun e => changed (snd e)) (gedges g)).
 
+(** remove_normal_edges(graph, "is_mtg"): attrs.get("is_mtg", 1) == 0 holds exactly for is_mtg = False (False == 0 in Python);
+    bonds without the attribute and bonds flagged True stay *)
+Definition mtg_is_false (x : xedge) : bool := match snd x with Some false => true | _ => false end.
+Definition remove_normal_mtg (g : xits) : xits := LG (gnodes g) (filter (fun e => negb (mtg_is_false (snd e))) (gedges g)).
+
+(** extract_subgraph(G, node_indices) = G.subgraph(node_indices).copy(): lib/LGraph.v [induced_sub] (ids not in G are ignored) *)
+Definition extract_subgraph (g : its) (ids : list N) : its := induced_sub g ids.
+
 (** longest_radius_extension(G, rc_nodes): depth-first enumeration of the simple paths that start in a centre atom and
     use only edges with standard_order == 0; neighbours in adjacency order ([nbrs]: edge-list order, which is the
     networkx adjacency order when the graph was built by adding the edges in list order). [fuel] bounds the depth. *)
